@@ -269,7 +269,7 @@ def run(tier, seed):
             hs.append({"state": s, "faults": [], "second_clean": True})
             for c in CRASHPOINTS:
                 hs.append({"state": s, "faults": [c]})
-        n_double = 320 if tier == "quick" else 0
+        n_double = 1600 if tier == "quick" else 0
         doubles = [{"state": s, "faults": [c1, c2]} for s in snames for c1 in CRASHPOINTS for c2 in CRASHPOINTS]
         if tier == "quick":
             rng.shuffle(doubles)
